@@ -89,7 +89,7 @@ def model_check(work, stats, tier):
             f.write("---- MODULE %s ----\nEXTENDS AgentClose\n" % mod)
             f.write("c_Closers == {%s}\n" % ", ".join('"%s"' % i for i in ids))
             f.write("c_Graceful == [i \\in c_Closers |-> CASE %s]\n" % " [] ".join('i = "%s" -> %s' % (i, B(k[1])) for i, k in zip(ids, ks)))
-            f.write("c_InCallback == [i \\in c_Closers |-> CASE %s]\n" % " [] ".join('i = "%s" -> %s' % (i, B(k[2])) for i, k in zip(ids, ks)))
+            f.write("c_InCallback == [i \\in c_Closers |-> CASE %s]\n" % " [] ".join('i = "%s" -> %s' % (i, '"state"' if k[2] else '""') for i, k in zip(ids, ks)))
             f.write("====\n")
         with open(work.path(mod + ".cfg"), "w") as f:
             f.write("CONSTANTS\n Closers <- c_Closers\n Graceful <- c_Graceful\n InCallback <- c_InCallback\n BlockedWrite = %s\n Gathering = %s\n SlowHandler = %s\n"
@@ -114,6 +114,85 @@ def model_check(work, stats, tier):
                                 "invariants": INVS, "properties": PROPS, "violating_configurations": bad})
     if bad:
         stats.setdefault("model_counterexamples", []).extend(bad)
+
+
+def trace_validate(work, lines, stats):
+    """Conformance (evidence, never the verdict): the event log explained by AgentClose with its internal steps placed by TLC."""
+    tp = work.path("close-tv.ndjson")
+    with open(tp, "w") as f:
+        for e in lines:
+            e = dict(e)
+            if e["ev"] in ("CloseStart", "CloseReturn") and e.get("graceful"):
+                e["who"] = e["who"] + "G"      # closer ids carry the flavour of the call (Graceful is a constant of the model)
+            f.write(json.dumps(e) + "\n")
+    with open(work.path("TRC_close.tla"), "w") as f:
+        f.write('---- MODULE TRC_close ----\nEXTENDS AgentCloseTrace\nc_TraceFile == "%s"\n====\n' % tp)
+    with open(work.path("TRC_close.cfg"), "w") as f:
+        f.write("CONSTANTS\n TraceFile <- c_TraceFile\n Closers <- TrClosers\n Graceful <- TrGraceful\n InCallback <- TrInCallback\n"
+                " BlockedWrite = FALSE\n Gathering = FALSE\n SlowHandler = FALSE\n"
+                "SPECIFICATION TSpec\nINVARIANT HWM\nPOSTCONDITION Accepted\nCHECK_DEADLOCK FALSE\n")
+    r = v.tlc(work.dir, "TRC_close", workers=1, timeout=900, heap="8g")
+    if r.error and "TRACE_REJECTED_AT" not in r.out:
+        sys.stderr.write(r.out[-3000:])
+        raise v.Inconclusive("close trace validation: TLC %s" % r.error)
+    rej = r.prints("TRACE_REJECTED_AT")
+    stats["trace_validation_states"] = r.distinct
+    if not rej:
+        stats["traces_validated_against_impl"] = sum(1 for e in lines if e["ev"] == "Begin")
+        binding_demo(work, tp, stats)
+        return
+    at = int(rej[0][0])          # first line that could not be consumed (1-based)
+    e = lines[at - 1] if 0 < at <= len(lines) else {}
+    msg = "NONCONFORMANCE spec=AgentClose line=%d scenario=%s ev=%s who=%s" % (at, e.get("sc"), e.get("ev"), e.get("who"))
+    print(msg)
+    stats.setdefault("nonconformance", []).append(msg)
+    stats["traces_validated_against_impl"] = sum(1 for x in lines[:at] if x["ev"] == "Begin") - 1
+
+
+def binding_demo(work, tp, stats):
+    """The trace specification is not vacuous: one accepted scenario (GracefulClose from an API goroutine, Closed notified),
+    reordered or corrupted in six ways that the close protocol forbids, must be rejected each time."""
+    L = v.read_ndjson(tp)
+    pick = None
+    for sc in sorted({e["sc"] for e in L}):
+        S = [e for e in L if e["sc"] == sc]
+        if (sum(1 for e in S if e["ev"] == "CloseStart") == 1 and any(e["ev"] == "CloseReturn" and e["who"] == "apiG" for e in S)
+                and any(e["ev"] == "HEnd" and e["st"] == "Closed" for e in S) and any(e["ev"] == "HStart" and e["who"] == "cand" for e in S)):
+            pick = S
+            break
+    if pick is None:
+        return
+    idx = lambda m, f: [k for k, e in enumerate(m) if f(e)][0]  # noqa: E731
+    muts = {}
+    m = list(pick); e = m.pop(idx(m, lambda e: e["ev"] == "CloseReturn")); m.insert(idx(m, lambda e: e["ev"] == "HEnd" and e["st"] == "Closed"), e)
+    muts["GracefulClose returns before the Closed handler has ended"] = m
+    m = list(pick); e = m.pop(idx(m, lambda e: e["ev"] == "HStart" and e["st"] == "Closed")); m.insert(idx(m, lambda e: e["ev"] == "CloseStart"), e)
+    muts["Closed notified before any Close call started"] = m
+    muts["a Close call returns that never started"] = [e for e in pick if e["ev"] != "CloseStart"]
+    m = list(pick); k = idx(m, lambda e: e["ev"] == "CloseReturn"); h = idx(m, lambda e: e["ev"] == "HStart" and e["who"] == "cand")
+    m[k + 1:k + 1] = [pick[h], pick[h + 1]]
+    muts["a handler starts after GracefulClose has returned"] = m
+    m = list(pick); k = idx(m, lambda e: e["ev"] == "HEnd" and e["st"] == "Closed"); m[k + 1:k + 1] = [m[k - 1], m[k]]
+    muts["Closed notified twice"] = m
+    m = list(pick); k = idx(m, lambda e: e["ev"] == "CloseReturn"); e = m.pop(idx(m, lambda e: e["ev"] == "CallReturn" and e["err"] != "")); m.insert(k, e)
+    muts["(control) a blocked caller returns after Close has returned - allowed"] = m
+    res = {}
+    cfg = open(work.path("TRC_close.cfg")).read()
+    for n, (what, seq) in enumerate(muts.items()):
+        mp = work.path("mut%d.ndjson" % n)
+        with open(mp, "w") as f:
+            f.write("".join(json.dumps(e) + "\n" for e in seq))
+        mod = "TRC_mut%d" % n
+        with open(work.path(mod + ".tla"), "w") as f:
+            f.write('---- MODULE %s ----\nEXTENDS AgentCloseTrace\nc_TraceFile == "%s"\n====\n' % (mod, mp))
+        with open(work.path(mod + ".cfg"), "w") as f:
+            f.write(cfg)
+        r = v.tlc(work.dir, mod, workers=1, timeout=120)
+        res[what] = "rejected" if r.prints("TRACE_REJECTED_AT") else ("accepted" if not r.error else "error: %s" % r.error)
+    stats["binding_demonstration"] = res
+    wrong = [w for w, o in res.items() if (o != "rejected") != w.startswith("(control)")]
+    if wrong:
+        print("WARNING: AgentCloseTrace binding demonstration: unexpected outcome for %s" % wrong)
 
 
 def c08(tier, seed):
@@ -158,7 +237,8 @@ def c08(tier, seed):
                 json.dump({"property": "C08", "family": "close", "scenario": cfg, "predicate": pred,
                            "events": [e for e in lines if e["sc"] == sc]}, open(path, "w"))
             verdict.report(feat, writer)
-        stats["traces_validated_against_impl"] = len(scs) - len(bad)
+        stats["scenarios_judged_clean_by_monitor"] = len(scs) - len(bad)
+        trace_validate(work, lines, stats)
         stats["samples"] = [{"scenario": scs[0], "events": [{k: e[k] for k in ("ev", "who", "err", "st")} for e in lines if e["sc"] == scs[0]["id"]][:40]}]
         model_check(work, stats, tier)
     verdict.coverage.update(stats)
